@@ -25,18 +25,18 @@ type cexc struct {
 }
 
 type cst struct {
-	kind    string
-	k       int      // marker
-	etype   string   // raise type
-	val     int      // return value (0: no value)
-	body    []*cst   // try body / loop body / function body / if branch
-	excepts []cexc
-	other   []*cst
+	kind     string
+	k        int    // marker
+	etype    string // raise type
+	val      int    // return value (0: no value)
+	body     []*cst // try body / loop body / function body / if branch
+	excepts  []cexc
+	other    []*cst
 	hasOther bool
-	fin     []*cst
-	hasFin  bool
+	fin      []*cst
+	hasFin   bool
 	// loops
-	a, b, s int  // range (s == 0: no step given)
+	a, b, s int // range (s == 0: no step given)
 	list    []int
 	when    int  // loop variable value at which the conditional exit statement runs (0: always)
 	exit    *cst // statement executed when x == when
@@ -48,7 +48,7 @@ type cst struct {
 }
 
 type cref struct {
-	trace []string
+	trace  []string
 	unspec string
 }
 
